@@ -2,18 +2,21 @@
 
 Design:   TLC runs TimeStepMC.tla: the decision structure of
           Integrator.compute_time_step / Solver._compute_timestep (mechanism
-          layer of TimeStep.tla) over EVERY case of a small input universe,
-          against the property layer (Allowed / PBounds).  `Documented` is
-          checked first - TLC finds the discrepancies of the code's design
-          itself - then `Masked` (every discrepancy is explained by a known
-          finding), `Repaired` (the patched mechanism satisfies the statement)
-          and one discovery run per known finding.
+          layer of TimeStep.tla, the code as it is: Df = {}) over EVERY case
+          of a small input universe; `Documented` (the property layer,
+          Allowed / PBounds, no masking) and `Functional` must hold.  Side
+          runs re-introduce each repaired defect in the model (Df = {id}):
+          TLC must exhibit a violating case, which measures that the
+          universe is sensitive to it.
 Binding:  TLC prints every case of the universe (Call action); each one is
           run through the real code by checks/c19_driver.py (real
           ParticleArrays, real NNPS, real Integrator and Solver), together
           with random larger cases; TraceTimeStep.tla evaluates the property
           layer on every recorded result (verdict) and compares it with the
-          mechanism model (drift).
+          mechanism model (drift).  Only findings of status "known" in
+          known_findings.json can explain a failure (none at present).
+Selftest: --selftest re-introduces a repaired defect in the driver process
+          only and demands that the check reports violations.
 """
 import json
 import os
@@ -38,19 +41,18 @@ UNIVERSES = {
                  dict(BASE, MaxArr=3, HVals='H3', VVals='V2')],
 }
 NRANDOM = {'quick': 8000, 'thorough': 60000}
-FINDS = {'C19-hmin-starts-at-1': 'Find_hmin1',
-         'C19-empty-array-hmin': 'Find_empty',
-         'C19-dt-adapt-ghost-only': 'Find_ghostonly',
-         'C19-dt-adapt-no-particles': 'Find_nopart'}
+DEFECTS = ('C19-hmin-starts-at-1', 'C19-empty-array-hmin',
+           'C19-dt-adapt-ghost-only', 'C19-dt-adapt-no-particles')
 INPUT_KEYS = ('cfl', 'dt', 'fixed_h', 'late', 'arrays')
 
 
-def write_cfg(path, b, invariants, emit):
+def write_cfg(path, b, invariants, emit, defects=()):
     with open(path, 'w') as fp:
         fp.write('SPECIFICATION Spec\nCONSTANTS\n')
         for k, v in b.items():
             fp.write('  %s %s %s\n' % (k, '<-' if isinstance(v, str) else '=',
                                        v))
+        fp.write('  Df = {%s}\n' % ', '.join('"%s"' % d for d in defects))
         fp.write('  Emit = %s\n' % ('TRUE' if emit else 'FALSE'))
         for i in invariants:
             fp.write('INVARIANT %s\n' % i)
@@ -70,36 +72,31 @@ def design(chk):
     """Design runs.  Returns (cases printed by TLC, info for the evidence)."""
     sc = chk.scratch
     cases = []
-    info = dict(states=0, transitions=0, universes=[], discrepancies={},
-                documented=None)
+    info = dict(states=0, transitions=0, universes=[], sensitivity={})
     for ui, b in enumerate(UNIVERSES[chk.tier]):
-        # (1) the statement on the code's decision structure as it is
-        c0 = os.path.join(sc, 'doc-%d.cfg' % ui)
-        write_cfg(c0, b, ['Documented'], False)
-        # (2) one discovery run per known finding
+        # (1) sensitivity: each repaired defect, re-introduced in the model
+        # alone, must make TLC find a case violating the statement
         finds = []
-        for fid, inv in sorted(FINDS.items()):
-            c = os.path.join(sc, 'find-%d-%s.cfg' % (ui, inv))
-            write_cfg(c, b, [inv], False)
+        for fid in DEFECTS:
+            c = os.path.join(sc, 'sens-%d-%s.cfg' % (ui, fid))
+            write_cfg(c, b, ['Documented'], False, defects=(fid,))
             finds.append((fid, c))
-        # (3) the complete run: every discrepancy explained, repaired
-        # mechanism conforms, cases printed
+        # (2) the complete run on the code as it is: the statement holds on
+        # every case, no masking; cases printed
         c1 = os.path.join(sc, 'full-%d.cfg' % ui)
-        write_cfg(c1, b, ['Functional', 'Masked', 'Repaired'], True)
+        write_cfg(c1, b, ['Functional', 'Documented'], True)
         with ThreadPoolExecutor(max_workers=6) as ex:
-            fdoc = ex.submit(run_tlc, c0, 2)
             ffind = [(fid, ex.submit(run_tlc, c, 2)) for fid, c in finds]
             full = run_tlc(c1, 12)
-            doc = fdoc.result()
             found = [(fid, f.result()) for fid, f in ffind]
         if not full['ok']:
-            # the model is inconsistent with its own list of findings (a
-            # discrepancy that no known finding explains, or repairs that do
-            # not satisfy the statement): a fault of the specification
+            # The model of the current decision structure violates the
+            # statement on some case.  The model does not read /repo: this
+            # is a fault of the specification (or the model must follow a
+            # change of the code); the universe cannot be completed.
             raise MachineryError(
-                'design model: invariant %s violated (the case universe '
-                'cannot be completed)\n%s' % (full['violation'],
-                                              full['out'][-2500:]))
+                'design model: invariant %s violated\n%s' % (
+                    full['violation'], full['out'][-2500:]))
         got = tlc.parse_prints(full['out'], 'CASE')
         for i, c in enumerate(got):
             c['id'] = 'u%d-%d' % (ui, i)
@@ -109,15 +106,15 @@ def design(chk):
         info['transitions'] += full['generated']
         info['universes'].append(dict(constants=b, cases=len(got),
                                       states=full['distinct']))
-        if doc['violation'] == 'Documented':
-            st = tlc.counterexample(doc['out'])
-            if info['documented'] is None and st:
-                info['documented'] = st[-1]['text'][:1500]
         for fid, r in found:
-            if r['violation'] and fid not in info['discrepancies']:
+            if r['violation'] != 'Documented':
+                raise MachineryError(
+                    'universe %d is not sensitive to defect %s (TLC found no '
+                    'violating case)\n%s' % (ui, fid, r['out'][-1500:]))
+            if fid not in info['sensitivity']:
                 st = tlc.counterexample(r['out'])
-                info['discrepancies'][fid] = (st[-1]['text'][:1500]
-                                              if st else '')
+                info['sensitivity'][fid] = (st[-1]['text'][:1500]
+                                            if st else '')
     return cases, info
 
 
@@ -188,7 +185,7 @@ def random_case(rng, i):
 
 
 # -- real code ---------------------------------------------------------------
-def drive(chk, cases, tag, nproc=16, chunk=6000):
+def drive(chk, cases, tag, nproc=16, chunk=6000, seed_defect=None):
     """Run the real code over `cases` (driver subprocesses, <= chunk cases
     each).  A driver that dies costs only the case it was working on
     (recorded as k = 'crash')."""
@@ -206,8 +203,11 @@ def drive(chk, cases, tag, nproc=16, chunk=6000):
             with open(fi, 'w') as fp:
                 for c in todo:
                     fp.write(json.dumps(c) + '\n')
+            env = {'OMP_NUM_THREADS': '1'}
+            if seed_defect:
+                env['C19_SEED_DEFECT'] = seed_defect
             p = chk.run_py('checks/c19_driver.py', [fi, fo], check=False,
-                           env_extra={'OMP_NUM_THREADS': '1'})
+                           env_extra=env)
             got = []
             if os.path.exists(fo):
                 with open(fo) as fp:
@@ -305,6 +305,31 @@ def nontrivial(t):
     return False
 
 
+def selftest(chk, cases):
+    """The binding must be live: with a repaired defect re-introduced in the
+    driver process (the real code otherwise), the verdicts must contain
+    failures that nothing explains.  Writes no evidence and no replay."""
+    seed = os.environ.get('C19_SEED_DEFECT') or 'hmin1'
+    traces = drive(chk, cases, 's', seed_defect=seed)
+    verdicts, st = validate(chk, traces, 'sv')
+    by_tr = {t['id']: t for t in traces}
+    caught = [r for r in verdicts
+              if r['v']['failed'] and not r['v']['explained']]
+    for r in caught[:3]:
+        tr = by_tr[r['v']['id']]
+        print('SELFTEST caught: VIOLATION property=C19 seeded=%s clauses %s '
+              'fail: inputs %s -> %s / %s' % (
+                  seed, sorted(r['v']['failed']),
+                  json.dumps(inputs_of(tr)), json.dumps(tr['res']),
+                  json.dumps(tr['sres'])))
+    print('C19 selftest: seeded defect %r, %d cases, %d reported as '
+          'violations' % (seed, len(traces), len(caught)))
+    if not caught:
+        raise MachineryError('selftest: seeded defect %r was not caught'
+                             % seed)
+    sys.exit(0)
+
+
 def run():
     chk = Check('C19', 'model_checking')
     try:
@@ -328,8 +353,15 @@ def check(chk):
         cases, info = design(chk)
         nuni = len(cases)
         cases += [random_case(rng, i) for i in range(NRANDOM[chk.tier])]
+    # only findings of status "known" may explain a failure (TraceTimeStep)
+    known_ids = sorted(f['id'] for f in chk.findings
+                       if f['status'] == 'known')
+    for c in cases:
+        c['known_ids'] = known_ids
     phase['design_tlc'] = round(time.time() - t0, 1)
     t0 = time.time()
+    if chk.args.selftest:
+        return selftest(chk, cases)
     traces = drive(chk, cases, 't')
     phase['real_code'] = round(time.time() - t0, 1)
     t0 = time.time()
@@ -363,13 +395,12 @@ def check(chk):
         transitions=info['transitions'] or st['generated'],
         design_model='TimeStepMC.tla; universes: %s' % json.dumps(
             info.get('universes', [])),
-        design_result='Documented violated (expected: discrepancies of the '
-                      'decision structure found by TLC); Functional, Masked, '
-                      'Repaired hold on every case'
-        if info.get('documented') else 'Functional, Masked, Repaired hold; '
-                                       'Documented not violated',
-        design_counterexample=info.get('documented'),
-        design_discrepancies=info.get('discrepancies', {}),
+        design_result='Documented (the statement, no masking) and Functional '
+                      'hold on every case for the mechanism as it is; with '
+                      'each repaired defect re-introduced in the model TLC '
+                      'finds a violating case (defect_sensitivity)',
+        defect_sensitivity=info.get('sensitivity', {}),
+        known_ids_that_may_mask=known_ids,
         traces_validated_against_impl=len(verdicts),
         universe_cases=(0 if chk.args.replay else nuni),
         random_cases=(0 if chk.args.replay else len(cases) - nuni),
